@@ -1149,19 +1149,30 @@ void process_option_line(const std::string &config_line, const char *filename,
    }
    else if (cmd == "using")
    {
-      auto vargs = split_args(args[1], filename, is_varg_sep);
+      auto vargs   = split_args(args[1], filename, is_varg_sep);
+      bool version = false;
 
-      if (vargs.size() == 2)
+      try
       {
-         compat_level = option_level(std::stoi(vargs[0]), std::stoi(vargs[1]));
+         if (vargs.size() == 2)
+         {
+            compat_level = option_level(std::stoi(vargs[0]), std::stoi(vargs[1]));
+            version      = true;
+         }
+         else if (vargs.size() == 3)
+         {
+            compat_level = option_level(std::stoi(vargs[0]),
+                                        std::stoi(vargs[1]),
+                                        std::stoi(vargs[2]));
+            version = true;
+         }
       }
-      else if (vargs.size() == 3)
+      catch (const std::logic_error &)
       {
-         compat_level = option_level(std::stoi(vargs[0]),
-                                     std::stoi(vargs[1]),
-                                     std::stoi(vargs[2]));
+         // std::stoi: not a number, or out of range
       }
-      else
+
+      if (!version)
       {
          OptionWarning w{ filename };
          w("%s requires a version number in the form MAJOR.MINOR[.PATCH]",
